@@ -33,11 +33,12 @@ func (r *vRepoC03) evalSite(muts []vMutC03, snaps []int) vSiteResultC03 {
 	res := vSiteResultC03{}
 	s := r.e.store.Clone()
 	for _, m := range muts {
-		if vApplyC03(s, m) {
-			res.Changed = true
-			if r.depended(m) {
-				res.Depended = true
-			}
+		vApplyC03(s, m)
+	}
+	for _, m := range r.effective(s, muts) {
+		res.Changed = true
+		if r.depended(m) {
+			res.Depended = true
 		}
 	}
 	if !res.Changed {
